@@ -500,7 +500,7 @@ func runCheck(prop, tier string) int {
 	for _, k := range sortedKeys(a.knownHit) {
 		what := k
 		for _, kf := range known {
-			if prop+"/"+kf.Signature == k {
+			if kf.Property == prop && prop+"/"+kf.Signature == k {
 				what = kf.Signature + ": " + kf.What
 			}
 		}
